@@ -48,6 +48,39 @@ TEMPLATES = [
     ("undefined", "«0»nope_qq = 1\n", True),
     ("undefined", "qq := {\"k\": [«0»nope_qq]}\n", True),
     ("undefined", "qq := \"é€😀\" + «0»nope_qq\n", True),
+    # an undefined name in every kind of operand position (blanks before it keep it apart from the token in front)
+    ("undefined", "qq := 0 ..   «0»nope_qq\n", True),
+    ("undefined", "qq := «0»nope_qq .. 3\n", True),
+    ("undefined", "for qi in 0 ..  «0»nope_qq {\n}\n", True),
+    ("undefined", "for qi in  «0»nope_qq {\n}\n", True),
+    ("undefined", "qq := [1, 2, 3][  «0»nope_qq]\n", True),
+    ("undefined", "qq := [1, 2, 3][0 :  «0»nope_qq]\n", True),
+    ("undefined", "qq := [1, 2, 3][  «0»nope_qq : 2]\n", True),
+    ("undefined", "qq := \"é€\"[:  «0»nope_qq]\n", True),
+    ("undefined", "print(1,  «0»nope_qq)\n", True),
+    ("undefined", "print([1]..,  «0»nope_qq..)\n", True),
+    ("undefined", "qq := {\"k\":   «0»nope_qq}\n", True),
+    ("undefined", "qq := {  «0»nope_qq: 1}\n", True),
+    ("undefined", "qq := {\"a\": 1,  «0»nope_qq..}\n", True),
+    ("undefined", "qq := {  «0»nope_qq}\n", True),
+    ("undefined", "if  «0»nope_qq {\n}\n", True),
+    ("undefined", "if false {\n} else if   «0»nope_qq {\n}\n", True),
+    ("undefined", "while  «0»nope_qq {\n}\n", True),
+    ("undefined", "fn fq() {\n    return   «0»nope_qq\n}\n«1»fq()\n", True),
+    ("undefined", "qq := 1\nqq +=   «0»nope_qq\n", True),
+    ("undefined", "qq := 1\nqq =   «0»nope_qq\n", True),
+    ("undefined", "[qa, qb] :=   «0»nope_qq\n", True),
+    ("undefined", "qq := 1 - 2 *  «0»nope_qq\n", True),
+    ("undefined", "qq := true &&  «0»nope_qq\n", True),
+    ("undefined", "qq := 1 ==  «0»nope_qq\n", True),
+    ("undefined", "qq :=  «0»nope_qq.k\n", True),
+    ("undefined", "qq :=  «0»nope_qq[0]\n", True),
+    ("undefined", "qq :=  «0»nope_qq->type()\n", True),
+    ("undefined", "qq := [1,\n\t «0»nope_qq]\n", True),
+    ("undefined", "qxs := [1]\nqxs[  «0»nope_qq] = 1\n", True),
+    ("undefined", "qxs := [1]\nqxs[0:  «0»nope_qq] = [1]\n", True),
+    ("undefined", "qo := {}\nqo[  «0»nope_qq] = 1\n", True),
+    ("undefined", "qq := «1»fn() { return  «0»nope_qq; }()\n", True),
     ("operator", "print(1 «0»+ \"a\")\n", True),
     ("operator", "print(9223372036854775807 «0»+ 1)\n", True),
     ("operator", "qq := 1\nqq «0»+= \"a\"\n", True),
@@ -153,13 +186,20 @@ def known_families():
         for brk in ("", "\n", "\n\t "):
             for pre in ("", "é ", "ab"):
                 tail = "xk_q := «9»" + "(" * depth + brk + "$\"" + pre + "${«0»zz_q}\"" + ")" * depth + "\n"
-                out.append(("K4", f"paren{depth}" + ("+break" if brk else ""), tail, len(pre)))
+                out.append(("K4", f"paren{depth}" + ("+break" if brk else ""), tail, len(pre) + 4))
     for pre, n in (("ab\\n", 3), ("\\x41", 1), ("\\\\", 1), ("\\$", 1), ("a\nb", 3), ("é\\\"", 2), ("€\n\n", 3)):
-        out.append(("K2", "escape" if "\\" in pre else "line-break", "print(«9»$\"" + pre + "${«0»zz_q}\")\n", n))
+        out.append(("K2", "escape" if "\\" in pre else "line-break", "print(«9»$\"" + pre + "${«0»zz_q}\")\n", n + 4))
+    # K5: the same root cause without a slot — an expression directly inside parentheses carries the position of the outermost
+    # `(`, so an undefined name there is reported at the parenthesis
+    for depth in (1, 2, 3):
+        for brk in ("", "  ", "\n\t "):
+            for use in ("xk_q := @", "print(1 + @)", "xk_q := [@]"):
+                tail = use.replace("@", "«9»" + "(" * depth + brk + "«0»nope_qq" + ")" * depth) + "\n"
+                out.append(("K5", f"name-paren{depth}" + ("+gap" if brk else "") + use[:6], tail, 0))
     return out
 
 
-FLAG = {"K2": "inside_slot_after_escape", "K4": "slot_in_parenthesised_literal"}
+FLAG = {"K2": "inside_slot_after_escape", "K4": "slot_in_parenthesised_literal", "K5": "name_directly_in_parentheses"}
 
 
 def strip_markers(text):
@@ -344,7 +384,7 @@ def process(ctx, rng, model_ok, bases, n_layouts, state, thorough):
                 o = starts[a[1]] + a[2] if a[0] == "tok" else tail_start + a[1]
                 if k == 9:
                     al, ac = L.pos_of(s2, o)
-                    known_wrong = (al, ac + b["family"][1] + 4)
+                    known_wrong = (al, ac + b["family"][1])
                     continue
                 offs.append(o)
                 exp.append(L.pos_of(s2, o))
